@@ -49,6 +49,11 @@ def owning_extract(unit_res, ob):
     for k in unit_res.hashes:
         if k == short:
             return k
+    # ids may carry a module prefix the verifier's name does not have (`utils::unflatten` vs `flat::unflatten`) or lack
+    # one it has (`cor::..`): accept a unique match on the trailing path components
+    cand = [k for k in unit_res.hashes if not k.startswith(("struct ", "const ")) and (k.endswith("::" + short) or short.endswith("::" + k))]
+    if len(cand) == 1:
+        return cand[0]
     return None
 
 
